@@ -2,7 +2,7 @@
    Only statements, each closed by [exact] of a lemma of proofs/TableCache.v,
    followed by Print Assumptions. *)
 From Coq Require Import List ZArith NArith.
-From XD Require Import lib.ListAux model.Table proofs.TableCache.
+From XD Require Import lib.ListAux model.Table proofs.TableCache model.TableSel model.TableDerive proofs.TableDerive.
 Import ListNotations.
 Open Scope Z_scope.
 
@@ -60,6 +60,39 @@ Print Assumptions C07_labels_roundtrip.
 Theorem C07_labels_total : forall col, length (c_lab (make_cache col)) = length col.
 Proof. exact make_cache_lab_length. Qed.
 Print Assumptions C07_labels_total.
+
+(* Derived tables (t + t, t + t.rows[..], t * k, _copy, rows[..], cols[..],
+   Table.concatenate, _t) are new objects without a row-name cache: on the
+   table reached by any history of updates, lookups and derivations (lookups
+   on the source BEFORE deriving included), a lookup resolves against that
+   table's own current index column — nothing of the source's cache survives. *)
+Theorem C07_derived_fresh : forall t0 ops r,
+  t_cache t0 = None -> dops_raw_ok t0 ops ->
+  let t := dfinal t0 ops in
+  snd (step t (OGetIndex r)) = or_key (resolve_spec (t_idx t) r) /\
+  (raw_ok (t_idx t) r -> forall cr,
+   snd (step t (OGetCell cr r)) =
+   match resolve_spec (t_idx t) r with Some i => cell_at t cr i | None => RErr KeyError end).
+Proof. exact derived_fresh. Qed.
+Print Assumptions C07_derived_fresh.
+
+Theorem C07_derived_coherent : forall ops t, coherent t -> dops_raw_ok t ops -> coherent (dfinal t ops).
+Proof. exact dfinal_coherent. Qed.
+Print Assumptions C07_derived_coherent.
+
+(* look up on the source, derive t + t, look up on the result: the last
+   occurrence is in the appended half *)
+Example C07_derived_nonvacuous :
+  let t0 := mkTable [1; 2; 1]%N [(9%N, [10; 20; 30])] None in
+  drun t0 [DOp (OGetIndex (RStr 1%N 1%N (Some (-1)) 0)); DAddSelf; DOp (OGetIndex (RStr 1%N 1%N (Some (-1)) 0));
+           DOp (OGetIndex (RTup2 2%N 1)); DMul 2; DOp (OGetCell (CCol 9%N) (RTup2 1%N 7)); DOp OUnique;
+           DT [50; 51]%N; DOp (OGetIndex (RStr 51%N 51%N None 0))]
+  = [RPos 2; RUnit; RPos 5; RPos 4; RUnit; RValZ 30; 
+     RLabels [(1%N, Some 0); (2%N, Some 0); (1%N, Some 1); (1%N, Some 2); (2%N, Some 1); (1%N, Some 3);
+              (1%N, Some 4); (2%N, Some 2); (1%N, Some 5); (1%N, Some 6); (2%N, Some 3); (1%N, Some 7)];
+     RUnit; RPos 1].
+Proof. vm_compute. reflexivity. Qed.
+Print Assumptions C07_derived_nonvacuous.
 
 (* non-vacuity: a table with repeated names, a history that renames a row by
    cell assignment and replaces the column, meets the hypotheses *)
